@@ -450,7 +450,7 @@ pub fn run(o: &Opts) -> i32 {
             let scenario = format!("{} route={} names={}", v.class, v.route, logical.entries.len());
             let doc = serde_json::json!({
                 "property": "C15", "leg": "C15", "class": v.class, "detail": v.detail, "scenario": scenario,
-                "verif_seed": o.seed, "run": i, "map_seed": map_seed.to_string(), "mask": u64::MAX.to_string(),
+                "verif_seed": o.seed, "run": i, "shard": o.shard, "shards": o.shards, "map_seed": map_seed.to_string(), "mask": u64::MAX.to_string(),
                 "hash_seed": v.hash_seed.to_string(), "n_seeds": n_seeds, "route": v.route,
                 "entries": logical.entries.iter().map(|(n, t, v)| serde_json::json!({"name": n, "type": t.to_string(), "value": v.to_string()})).collect::<Vec<_>>(),
             });
